@@ -117,6 +117,20 @@ func ReachConds(fn *ssa.Function, b *ssa.BasicBlock) (out [][]Cond, ok bool) {
 }
 
 // pathConds: what holds on one path (see ReachConds); feasible=false: the path cannot be taken.
+// ReachCondPaths: ReachConds with the path kept (which blocks each way passes).
+func ReachCondPaths(fn *ssa.Function, b *ssa.BasicBlock) (out []CondPath, ok bool) {
+	paths, pok := PathsTo(fn, b, 4096)
+	if !pok {
+		return nil, false
+	}
+	for _, p := range paths {
+		if cs, feasible := pathConds(p); feasible {
+			out = append(out, CondPath{Path: p, Conds: cs})
+		}
+	}
+	return out, true
+}
+
 func pathConds(p Path) (cs []Cond, feasible bool) {
 	if !Feasible(p) {
 		return nil, false
